@@ -195,7 +195,8 @@ type workerOut struct {
 	// inputs not explored because an earlier input of the same command hung in this batch
 	SkippedAfterHang int `json:"skipped_after_hang"`
 	// inputs run against keys that are dead but still stored
-	DeadState int `json:"dead_state"`
+	DeadState     int `json:"dead_state"`
+	DeadlineState int `json:"deadline_state"`
 }
 
 func newInst() *inproc.Inst {
@@ -246,6 +247,17 @@ func worker(o *common.Opts) {
 			if dead {
 				in.ForceDead(presetKeys...)
 				out.DeadState++
+			} else if mine%7 == 3 || mine%7 == 5 {
+				// every preset key carries a deadline - one that lies centuries ahead, or an ordinary one -, so the
+				// command and the follow-ups run through the paths that replace, keep or drop an existing deadline
+				ttl := "10000000000"
+				if mine%7 == 5 {
+					ttl = "100000"
+				}
+				for _, k := range presetKeys[1:] {
+					in.Exec(respc.Cmd("EXPIRE", k, ttl), nil)
+				}
+				out.DeadlineState++
 			}
 			var res inproc.Result
 			done := make(chan struct{})
@@ -892,6 +904,7 @@ func main() {
 		agg.Blocking += w.Blocking
 		agg.SkippedAfterHang += w.SkippedAfterHang
 		agg.DeadState += w.DeadState
+		agg.DeadlineState += w.DeadlineState
 		for k, v := range w.PerCmd {
 			agg.PerCmd[k] += v
 		}
@@ -967,9 +980,11 @@ func main() {
 				"(full 35-symbol alphabet up to arity 3, command option words + extremes beyond); each input on a fresh preset keyspace under recover, then try-lock sweep of all stripes and probes on the same and another key; " +
 				"distinct = distinct (command, reply kind) pairs observed; TCP: sampled inputs against the real binary with same-connection, same-key, per-stripe and fresh-connection probes; " +
 				"cluster: sampled inputs, malformed membership commands and raw byte strings (empty command, null elements, non-array values) through one-node clusters with same-connection, fresh-connection and commit probes; hostile membership commands (peer address that is not a URL, ids that name nobody or an existing member), each on its own three-node cluster, after which every node must be alive and commit a write",
-			"samples":                []any{[]string{"SETRANGE", "ks", "9223372036854775807", "a"}, []string{"ZADD", "kz", "ch", "incr", "nan", "m"}, []string{"XADD", "kx", "maxlen"}},
-			"exhaustive":             inconclusive == "",
-			"inputs_per_command":     agg.PerCmd,
+			"samples":                             []any{[]string{"SETRANGE", "ks", "9223372036854775807", "a"}, []string{"ZADD", "kz", "ch", "incr", "nan", "m"}, []string{"XADD", "kx", "maxlen"}},
+			"exhaustive":                          inconclusive == "",
+			"inputs_per_command":                  agg.PerCmd,
+			"inputs_meeting_dead_but_stored_keys": agg.DeadState,
+			"inputs_meeting_keys_with_a_deadline_(ordinary_or_centuries_ahead)": agg.DeadlineState,
 			"commands":               len(agg.PerCmd),
 			"blocking_pop_inputs":    agg.Blocking,
 			"tcp_inputs":             tcpSent,
